@@ -57,7 +57,8 @@ check("C17", "exploration",
       "(explicitly and directly), uninstantiated, and in two declaration orders. Oracle: a method is reported supported only "
       "if the generator's feature flag permits it; unused templates and declaration order do not change the verdict. "
       "Restricting invariants on urgent and committed locations. "
-      "Every cell also with the carrying template as a process set (free parameter) and as a process set of a partial instance.",
+      "Every cell also with the carrying template as a process set (free parameter) and as a process set of a partial instance. "
+      "Hidden assignments in 17 statement placements, including code after statements that may return.",
       "Only the statement's 'only if' direction and invariance clauses are demanded; variable-valued rates are not claimed "
       "(the suite's rate_expression.xml fixes that they keep symbolic analysis). Only accepted models count. Known finding: a non-hybrid "
       "clock bound to a hybrid clock reference (known_findings.txt).",
@@ -239,7 +240,8 @@ check("C12", "exploration",
       "own parameters of one and two partial instances; constants whose initialiser or size contains a quantifier. "
       "Record types written out in place (`const struct { .. } s`) are among the type shapes. "
       "Writes as arguments of built-in functions: every function x argument position x 4 write forms. "
-      "Constants bound to written reference parameters of LSC charts.",
+      "Constants bound to written reference parameters of LSC charts. "
+      "Writes inside the global before_update / after_update hooks.",
       "Quantifier binders have no accepted twin. Small scope: listed shapes/forms.",
       "bounded-exhaustive matrix enumeration on the real type checker with a twin (differential) oracle",
       "DESIGN.md §3/C12")
@@ -257,7 +259,8 @@ check("C13", "exploration",
       "syntactic position; a named type declared a second time (8 scope pairs and same-scope pairs of different names x 6 kinds x 3 uses x "
       "8 expressions, either order); mutable cell must be rejected, constant twin accepted. "
       "Contexts on LSC templates (arguments, partial instances, own-parameter ranges) and arguments of partial instances of partial instances. "
-      "Forwarded own parameters of partial instances (references to variables, constants, two levels).",
+      "Forwarded own parameters of partial instances (references to variables, constants, two levels). "
+      "20 read positions inside functions (do-while condition, for step / initialisation, iteration body, nested conditions, branch returns).",
       "Every declared type is used. Function-local initialisers are outside the statement. Small scope: chains <= 3.",
       "bounded-exhaustive matrix enumeration on the real type checker with a twin (differential) oracle",
       "DESIGN.md §3/C13")
